@@ -167,7 +167,7 @@ func refreshOne(b rbeh, rest time.Duration) (run rrun) {
 		}
 	})
 	defer unhook()
-	px, err := sut.StartRedis(sut.RedisOpts{ConnectTO: 300 * time.Millisecond, ReadStrategy: strategy, Port: proxyPort()}, []string{seed.Addr})
+	px, err := sut.StartRedis(sut.RedisOpts{ConnectTO: 300 * time.Millisecond, ReadStrategy: strategy}, []string{seed.Addr})
 	unlock()
 	if err != nil {
 		run.Err = "start: " + err.Error()
